@@ -18,7 +18,7 @@ func init() {
 		Rule: "(a) all single fixed-amount sends (n through $amt in {0..H+3} and as a literal) over the C04 source alphabet x destinations {@x, ordered / allotment with kept} x all balance sheets; (b) all statement sequences of length <= L over the statement alphabet x all sheets with per-statement attribution through prefix runs; (c) the shared small alphabets: statements taking amounts / caps / bounds / portions from variables incl. arithmetic on them (vars-L*), statements about edge relations - overdraft bound 0 or negative, an account paying itself, sources after a capped @world, an account named world:fees, saving exactly the balance (edge-L*), statements over two assets with amounts and accounts from balance() / overdraft() / meta() variables (origin-L*); " +
 			"oracle both ways: success => postings of the send add up to n - kept; MissingFundsErr <=> the reference draw cannot supply n; failure => empty result; n = 0 => success without posting; non-trivial = the send needed >= 2 contributors, or a binding limit, or failed for missing funds; distinct = script text + inputs",
 		Assumptions: []string{"reference draw of harness/ref/sem.go decides whether the sources can supply n", "statement attribution: postings of prefix k must extend those of prefix k-1; unattributable cases are counted and left to C09"},
-		QuickBudget: 70 * time.Second,
+		QuickBudget: 240 * time.Second,
 		ThoroBudget: 12 * time.Minute,
 		Run:         runC03,
 	})
